@@ -60,6 +60,8 @@ def validate(out, tracefile, name, classify=None, timeout=3600, module="Trace_Id
                 cls["errc"] = e.get("errc")
         if evname == "Panic":
             cls["where"] = e.get("where")
+        if evname == "Law":
+            cls["law"], cls["be"] = e.get("name"), e.get("be")
         if classify:
             cls = classify(cls, e, ctx)
         lo = idx - 1
